@@ -13,7 +13,7 @@ import numpy as np
 
 from glue.core import Data, DataCollection
 from glue.core.coordinates import AffineCoordinates
-from glue.core.link_helpers import LinkSame
+from glue.core.link_helpers import LinkSame, LinkTwoWay
 from glue.core.roi import (CategoricalROI, CircularROI, PolygonalROI, RangeROI, RectangularROI, XRangeROI, YRangeROI)
 from glue.core.subset import (AndState, CategoricalMultiRangeSubsetState, CategoricalROISubsetState,
                               CategoricalROISubsetState2D, CategorySubsetState, ElementSubsetState,
@@ -388,9 +388,25 @@ def build_world(models, state_descs, links_pool=(), links_active=(), with_dc=Tru
     return w
 
 
+def _double(x):
+    return x * 2
+
+
+def _half(x):
+    return x / 2
+
+
 def make_link(spec, datas):
-    (da, na), (db, nb) = spec
-    return LinkSame(datas[da].id[na], datas[db].id[nb])
+    """spec = ((data a, name a), (data b, name b), func); func None = identity (LinkSame), "x2" = b is 2 * a."""
+    (da, na), (db, nb) = spec[0], spec[1]
+    func = spec[2] if len(spec) > 2 else None
+    if func is None:
+        return LinkSame(datas[da].id[na], datas[db].id[nb])
+    return LinkTwoWay(datas[da].id[na], datas[db].id[nb], forwards=_double, backwards=_half)
+
+
+def link_ends(spec):
+    return {tuple(spec[0]), tuple(spec[1])}
 
 
 # ================================================================ generators: states
